@@ -8,6 +8,7 @@ import (
 	"io"
 	"net/http"
 	"net/http/httptest"
+	"reflect"
 	"strings"
 	"testing"
 
@@ -197,6 +198,86 @@ func c14String(r *fw.Run, key, s string) {
 		err = w2.Scan(buf2)
 		c14Judge(r, key, "Scan([]byte)", "type", desc, s, true, w2, err, true)
 		c14Clobber(r, key, "Scan([]byte)", desc, buf2, s, w2)
+	}
+	// every other decoder the types may offer: any exported method of *EventID / *EventType that takes
+	// one []byte or string and returns an error (or nothing) is a construction route as well
+	// (UnmarshalBinary, GobDecode, Set ...); encoding/gob goes through the ones it knows
+	for _, tgt := range []struct {
+		kind string
+		mk   func() (reflect.Value, fieldVal, func() fieldVal)
+	}{
+		{"id", func() (reflect.Value, fieldVal, func() fieldVal) {
+			v := sse.ID("old")
+			return reflect.ValueOf(&v), v, func() fieldVal { return v }
+		}},
+		{"type", func() (reflect.Value, fieldVal, func() fieldVal) {
+			v := sse.Type("old")
+			return reflect.ValueOf(&v), v, func() fieldVal { return v }
+		}},
+	} {
+		pv, _, _ := tgt.mk()
+		for mi := 0; mi < pv.NumMethod(); mi++ {
+			name := pv.Type().Method(mi).Name
+			mt := pv.Method(mi).Type()
+			if mt.NumIn() != 1 || mt.NumOut() > 1 || (mt.NumOut() == 1 && mt.Out(0) != reflect.TypeOf((*error)(nil)).Elem()) {
+				continue
+			}
+			var arg reflect.Value
+			switch {
+			case mt.In(0) == reflect.TypeOf([]byte(nil)):
+				arg = reflect.ValueOf([]byte(s))
+			case mt.In(0).Kind() == reflect.String:
+				arg = reflect.ValueOf(s).Convert(mt.In(0))
+			default:
+				continue
+			}
+			if name == "UnmarshalJSON" || name == "UnmarshalText" {
+				continue // judged above with their own input forms
+			}
+			// inputs: the raw string, and - when the type has the matching encoder - the encoder's
+			// output for a harmless value with the payload swapped for the string (whatever framing the
+			// format has around the payload is learnt from the encoder itself)
+			inputs := []reflect.Value{arg}
+			if mt.In(0) == reflect.TypeOf([]byte(nil)) {
+				encName := ""
+				switch {
+				case strings.HasPrefix(name, "Unmarshal"):
+					encName = "Marshal" + name[len("Unmarshal"):]
+				case strings.HasSuffix(name, "Decode"):
+					encName = name[:len(name)-len("Decode")] + "Encode"
+				}
+				if em := pv.MethodByName(encName); encName != "" && em.IsValid() && em.Type().NumIn() == 0 && em.Type().NumOut() >= 1 && em.Type().Out(0) == reflect.TypeOf([]byte(nil)) {
+					probe, _, _ := tgt.mk()
+					const marker = "harmlessPROBEvalue"
+					if tgt.kind == "id" {
+						probe.Elem().Set(reflect.ValueOf(sse.ID(marker)))
+					} else {
+						probe.Elem().Set(reflect.ValueOf(sse.Type(marker)))
+					}
+					var outs []reflect.Value
+					func() {
+						defer func() { recover() }()
+						outs = probe.MethodByName(encName).Call(nil)
+					}()
+					if len(outs) > 0 {
+						if enc, ok := outs[0].Interface().([]byte); ok && bytes.Contains(enc, []byte(marker)) {
+							inputs = append(inputs, reflect.ValueOf(bytes.ReplaceAll(enc, []byte(marker), []byte(s))))
+						}
+					}
+				}
+			}
+			for _, in := range inputs {
+				rv, _, get := tgt.mk()
+				func() {
+					defer func() { recover() }()
+					rv.Method(mi).Call([]reflect.Value{in})
+				}()
+				r.Count("reflected_decoder_calls", 1)
+				if v := get(); v.IsSet() && hasNewline(v.String()) {
+					r.Violation(key, []string{"multiline_value_set", "route_" + name, tgt.kind}, map[string]any{"input": desc, "method": name}, "C14: %s(%s) left a set %s containing a line break", name, desc, tgt.kind)
+				}
+			}
+		}
 	}
 	// Upgrade: Last-Event-Id header set directly on the request (net/http would refuse CR/LF on
 	// the wire, but handlers can be called with any header map).
